@@ -111,6 +111,65 @@ Definition strings_TrimPrefix (s pre : list N) : list N :=
 Definition strings_TrimSuffix (s suf : list N) : list N :=
   if strings_HasSuffix s suf then firstn (length s - length suf) s else s.
 
+(* strings.Split(s, sep) for a non-empty sep (an empty sep splits into UTF-8 sequences: not given a
+   meaning here, the result is then [s]).  Fuel = length of s. *)
+Fixpoint split_fuel (n : nat) (s sep : list N) : list (list N) :=
+  match n with
+  | O => [s]
+  | S n' =>
+    match s with
+    | [] => [[]]
+    | a :: s' =>
+      if strings_HasPrefix s sep
+      then [] :: split_fuel n' (skipn (length sep) s) sep
+      else match split_fuel n' s' sep with
+           | c :: cs => (a :: c) :: cs
+           | [] => [[a]]
+           end
+    end
+  end.
+Definition strings_Split (s sep : list N) : list (list N) :=
+  match sep with [] => [s] | _ => split_fuel (length s) s sep end.
+
+(* path/filepath.Clean for '/' — the component-wise formulation of Go's four rules, the same text as
+   Model/Path.v's [clean] (validated there against the Go library by kind 1203; PrimsP.filepath_Clean_bridge) *)
+Fixpoint clean_comps (p : list N) : list (list N) :=
+  match p with
+  | [] => [[]]
+  | a :: p' =>
+    if N.eqb a filepath_Separator then [] :: clean_comps p'
+    else match clean_comps p' with
+         | [] => [[a]]
+         | c :: cs => (a :: c) :: cs
+         end
+  end.
+Fixpoint clean_joinc (cs : list (list N)) : list N :=
+  match cs with
+  | [] => []
+  | [c] => c
+  | c :: r => c ++ filepath_Separator :: clean_joinc r
+  end.
+Definition clean_step (rooted : bool) (stk : list (list N)) (c : list N) : list (list N) :=
+  if bytes_eqb c [] || bytes_eqb c [46]%N then stk
+  else if bytes_eqb c [46; 46]%N then
+    match stk with
+    | t :: r => if bytes_eqb t [46; 46]%N then c :: stk else r
+    | [] => if rooted then stk else [c]
+    end
+  else c :: stk.
+Definition filepath_Clean (p : list N) : list N :=
+  let rooted := match p with a :: _ => N.eqb a filepath_Separator | [] => false end in
+  let out := clean_joinc (rev (fold_left (clean_step rooted) (clean_comps p) [])) in
+  if rooted then filepath_Separator :: out
+  else match out with [] => [46]%N | _ => out end.
+(* filepath.Join(elems...): empty elements are ignored, the rest joined with the separator and cleaned;
+   "" when nothing is left *)
+Definition filepath_Join (elems : list (list N)) : list N :=
+  match filter (fun e => match e with [] => false | _ => true end) elems with
+  | [] => []
+  | ne => filepath_Clean (clean_joinc ne)
+  end.
+
 (* moby/patternmatcher: a Pattern value (passed by pointer) is represented by its cleaned pattern
    string, which is what its String method returns *)
 Definition Pattern_String (p : list N) : list N := p.
